@@ -220,7 +220,65 @@ def render_gen(rows, rules):
     return "\n".join(L)
 
 
+GEN_CONTRACTION = LEAN / "FunsorVerif" / "Gen" / "C06Contraction.lean"
+
+
+def _ast_contraction_init():
+    """Source form of the typing part of cnf.Contraction.__init__: every statement that assigns `output`,
+    `inputs` or `bound` (with the test guarding it), as normalised source text (ast.unparse)."""
+    tree = ast.parse((REPO / "funsor" / "cnf.py").read_text())
+    init = None
+    for node in tree.body:
+        if isinstance(node, ast.ClassDef) and node.name == "Contraction":
+            for sub in node.body:
+                if isinstance(sub, ast.FunctionDef) and sub.name == "__init__":
+                    init = sub
+    stmts = []
+    if init is None:
+        return stmts, ""
+
+    def targets(st):
+        if isinstance(st, ast.Assign):
+            return [ast.unparse(t) for t in st.targets]
+        if isinstance(st, (ast.AugAssign, ast.AnnAssign)):
+            return [ast.unparse(st.target)]
+        return []
+
+    def walk(body, guard):
+        for st in body:
+            if isinstance(st, ast.If):
+                t = ast.unparse(st.test)
+                walk(st.body, guard + [t])
+                walk(st.orelse, guard + ["not (" + t + ")"])
+            elif isinstance(st, (ast.For, ast.While, ast.With, ast.Try)):
+                src = ast.unparse(st)
+                if any(w in src for w in ("output", "inputs", "bound")):
+                    stmts.append((" and ".join(guard), src.replace("\n", " ; ")))
+            elif any(t in ("output", "inputs", "bound") for t in targets(st)):
+                stmts.append((" and ".join(guard), ast.unparse(st).replace("\n", " ")))
+            elif isinstance(st, ast.Expr) and "__init__" in ast.unparse(st):
+                stmts.append((" and ".join(guard), ast.unparse(st)))
+    walk(init.body, [])
+    return stmts, ast.unparse(init.args)
+
+
+def render_contraction(stmts, args):
+    L = ["/- GENERATED by fv/harness/c06.py:extract from /repo/funsor/cnf.py (Contraction.__init__) on every run — do not edit. -/",
+         "namespace FV.Gen.C06", "",
+         "/-- the statements of `Contraction.__init__` that compute the declared type: (guard, statement) -/",
+         "def contractionInitArgs : String := " + _lean_str(args), "",
+         "def contractionInitTyping : List (String × String) := ["]
+    L.append(",\n".join("  (" + _lean_str(g) + ", " + _lean_str(st) + ")" for g, st in stmts))
+    L += ["]", "", "end FV.Gen.C06", ""]
+    return "\n".join(L)
+
+
 def extract(ctx):
+    cst, cargs = _ast_contraction_init()
+    ctxt = render_contraction(cst, cargs)
+    if not GEN_CONTRACTION.exists() or GEN_CONTRACTION.read_text() != ctxt:
+        GEN_CONTRACTION.write_text(ctxt)
+    ctx.extra["contraction_init_statements"] = len(cst)
     rows = op_table()
     rules = _ast_find_domain_rules()
     txt = render_gen(rows, rules)
@@ -1091,6 +1149,123 @@ def streams(run, tier, full_box=False):
     run.flush()
 
 
+def product_stream(ctx, tier, use_driver=True):
+    """find_domain(getslice / getitem, Product[...]) vs the Lean ProductDomain model vs Python tuple indexing, and
+    Tuple-valued terms lazily vs eagerly."""
+    from funsor.domains import Product
+    from funsor.terms import Tuple
+    rng = ctx.rng
+    comps = [Array["real", ()], Array["real", (2,)], Array[3, ()], Array["real", (2, 3)], Array[2, (2,)]]
+    arglists = [tuple(comps[:k]) for k in range(0, 5)] + [(comps[3], comps[0]), (comps[2],) * 3]
+    slices = all_slices() if tier != "quick" else [sl for sl in all_slices() if rng.random() < 0.12] + \
+        [slice(None), slice(None, None, -1), slice(1, None), slice(None, None, 0), slice(-1, 0, -2)]
+    indices = list(range(-5, 5)) + slices + [None, Ellipsis] + [(0,), (slice(None),), (0, 1), ()]
+    cases = [(args, ix) for args in arglists for ix in indices]
+    lines = []
+    ops_ = []
+    for args, ix in cases:
+        try:
+            op = mkop("getslice", index=ix)
+        except Exception:
+            op = None
+        ops_.append(op)
+        if op is not None:
+            lines.append(f"C06 fdprod {sx(enc_params(op))} {sx([enc_dom(d) for d in args])}")
+    answers = iter(ctx.driver.ask(lines)) if use_driver else None
+    for (args, ix), op in zip(cases, ops_):
+        if op is None:
+            continue
+        ctx.count("stream:product-getslice")
+        dom = Product[args]
+        try:
+            d = find_domain(op, dom)
+            impl = ("arr", dom_key(d)) if hasattr(d, "dtype") else ("prod", tuple(dom_key(x) for x in d.__args__))
+        except Exception as e:
+            impl = ("raise", type(e).__name__)
+        # Python's own tuple indexing is the reality for a product
+        try:
+            part = ix[0] if isinstance(ix, tuple) and len(ix) == 1 else ix
+            if isinstance(part, tuple) or part is None or part is Ellipsis:
+                raise TypeError
+            r = args[part]
+            real = ("prod", tuple(dom_key(x) for x in r)) if isinstance(r, tuple) else ("arr", dom_key(r))
+        except Exception as e:
+            real = ("raise", type(e).__name__)
+        desc = dict(stream="product-getslice", index=repr(ix), product=[repr(dom_key(a)) for a in args])
+        if impl[0] != "raise" and real[0] != "raise" and impl != real:
+            ctx.fail("input", "C06.product-getslice", witness=desc, expected=f"tuple indexing gives {real}", got=str(impl),
+                     python=f"from funsor import ops\nfrom funsor.domains import find_domain, Product, Array\n"
+                            f"args = ({', '.join(dom_src(dom_key(a)) for a in args)},)\n"
+                            f"d = find_domain(ops.GetsliceOp(index={ix!r}), Product[args])\nwant = args[{part!r}]\n"
+                            f"print(d, want)\nFAILS = (tuple(d.__args__) if isinstance(want, tuple) else d) != want\n")
+            ctx.case()
+            continue
+        if answers is not None:
+            ans = next(answers)
+            t = parse_sx(ans[3:]) if ans.startswith("ok ") else None
+            if t is None:
+                ctx.infra_errors.append(f"driver: {ans} for {desc}")
+                continue
+            def dk(x):
+                return ("real", tuple(int(v) for v in x[1])) if x[0] == "real" else ("bint", int(x[1]), tuple(int(v) for v in x[2]))
+            if t[0] == "raise":
+                model = ("raise", t[1])
+            elif t[0] == "arr":
+                model = ("arr", dk(t[1]))
+            else:
+                model = ("prod", tuple(dk(x) for x in t[1:]))
+            if impl[0] != "raise" and model[0] != "raise":
+                if impl != model:
+                    ctx.fail("correspondence", "C06.find_domain-vs-model:product-getslice", witness=None,
+                             expected=f"model {model}", got=f"find_domain {impl}", detail=str(desc))
+                else:
+                    ctx.count("product:types-agree")
+            elif (impl[0] == "raise") != (model[0] == "raise"):
+                ctx.count(f"product:decline-mismatch:impl={impl[0]}:model={model[0]}")
+            else:
+                ctx.count("product:both-raise")
+        ctx.case(nontrivial_key=("product", repr(ix), tuple(dom_key(a) for a in args)) if impl[0] != "raise" else None)
+    # getitem on a product declines
+    for args in arglists[1:4]:
+        try:
+            find_domain(ops.getitem, Product[args], Array[len(args), ()])
+            ctx.count("product:getitem-returns")
+        except NotImplementedError:
+            ctx.count("product:getitem-declines")
+        ctx.case()
+    # Tuple-valued terms: lazy vs eager declaration
+    for nb in (0, 1, 2):
+        for k in (1, 2, 3):
+            parts = []
+            for j in range(k):
+                ins = OrderedDict((n, Bint[s]) for n, s in [("a", 2), ("b", 3)][:nb] if (j + nb) % 2 == 0 or n == "a")
+                ev = [(), (2,), (2, 3)][j % 3]
+                parts.append(Tensor(np.ones(tuple(v.size for v in ins.values()) + ev), ins))
+            for ix in [0, -1, k - 1, slice(None), slice(0, 1), slice(None, None, -1), slice(1, None)]:
+                ctx.count("stream:tuple-terms")
+                try:
+                    with reflect:
+                        L = Tuple(tuple(parts))[ix]
+                    E = Tuple(tuple(parts))[ix]
+                except Exception as e:
+                    ctx.count("tuple-terms:declines:" + type(e).__name__)
+                    ctx.case()
+                    continue
+                want = Tuple(tuple(parts)).output.__args__[ix]
+                want = Product[want] if isinstance(want, tuple) else want
+                exp_in = OrderedDict()
+                for p_ in parts:
+                    exp_in.update(p_.inputs)
+                ok = (L.output == want and E.output == want and dict(L.inputs) == dict(exp_in)
+                      and all(k_ in L.inputs and L.inputs[k_] == v for k_, v in E.inputs.items()))
+                if not ok:
+                    ctx.fail("input", "C06.tuple-term-declaration",
+                             witness=dict(stream="tuple-terms", index=repr(ix), parts=[str(p_.inputs) + str(p_.output) for p_ in parts]),
+                             expected=f"output {want} inputs {dict(exp_in)}",
+                             got=f"lazy {L.output} {dict(L.inputs)}; eager {E.output} {dict(E.inputs)}")
+                ctx.case(nontrivial_key=("tuple-term", nb, k, repr(ix)))
+
+
 def report_known(ctx, run):
     for fid in (KF_INT, KF_FLOORDIV, KF_BITWISE, KF_SHAPE, KF_MOD_UNIT):
         hit = run.known_hits.get(fid) or run.known_hits.get(fid + "/term")
@@ -1151,6 +1326,7 @@ def correspond(ctx):
     run = Run(ctx)
     streams(run, ctx.tier)
     report_known(ctx, run)
+    product_stream(ctx, ctx.tier)
     from . import c06_terms
     c06_terms.run_constructors(ctx, ctx.tier)
     bad = table_checks(ctx)
@@ -1204,6 +1380,7 @@ def search(ctx, broken):
     run = Run(ctx, use_driver=False)
     streams(run, "quick")
     from . import c06_terms
+    product_stream(ctx, "thorough", use_driver=False)
     c06_terms.run_constructors(ctx, "thorough", report=False)
     if sum(1 for f in ctx.failures if f.witness is not None) > before:
         return
